@@ -48,6 +48,48 @@ class IE(enum.IntEnum):
     y = 2
 
 
+# user subclasses of the builtins in the promotion chain and of str / bytes / tuple / list / dict
+class ISub(int):
+    pass
+
+
+class FSub(float):
+    pass
+
+
+class CSub(complex):
+    pass
+
+
+class FE(float, enum.Enum):
+    half = 0.5
+    one = 1.0
+
+
+class SSub(str):
+    pass
+
+
+class BSub(bytes):
+    pass
+
+
+class TSub(tuple):
+    pass
+
+
+class LSub(list):
+    pass
+
+
+class DSub(dict):
+    pass
+
+
+class SE(str, enum.Enum):
+    a = "a"
+
+
 NT = NewType("NT", int)
 NT2 = NewType("NT2", int)
 
@@ -114,7 +156,20 @@ CLASS_CODES = {
     IE: 46,
     enum.Enum: 47,
     enum.IntEnum: 48,
+    ISub: 50,
+    FSub: 51,
+    CSub: 52,
+    FE: 53,
+    SSub: 54,
+    BSub: 55,
+    TSub: 56,
+    LSub: 57,
+    DSub: 58,
+    SE: 59,
 }
+# a representative instance per class that has instances (for the dumped nominal-for-literals table)
+REPRESENTATIVES = {ISub: ISub(3), FSub: FSub(0.5), CSub: CSub(1j), FE: FE.half, SSub: SSub("a"), BSub: BSub(b"a"),
+                   TSub: TSub((1,)), LSub: LSub([1]), DSub: DSub({1: 1}), SE: SE.a}
 CODE_CLASSES = {v: k for k, v in CLASS_CODES.items()}
 NEWTYPES = {NT: 1, NT2: 2}
 
